@@ -22,12 +22,22 @@ Notation rends := (ends_name token).
 (* ---- induction over trees with nested lists ---- *)
 Section SexprInd.
   Variable P : sexpr -> Prop.
-  Definition Ppar (p : param sexpr) : Prop := match p with PPos e | PNamed _ e => P e | POut _ _ _ => True end.
+  Definition Psel (s : sel sexpr) : Prop := match s with SField _ => True | SIndex es => Forall P es end.
+  Definition Ppar (p : param sexpr) : Prop :=
+    match p with PPos e | PNamed _ e => P e | POut _ _ _ vs => Forall Psel vs end.
   Hypothesis Hatom : forall l, P (XAtom l).
   Hypothesis Hbin : forall o l r, P l -> P r -> P (XBin o l r).
   Hypothesis Hun : forall o e, P e -> P (XUn o e).
   Hypothesis Hcall : forall f ps, Forall Ppar ps -> P (XCall f ps).
+  Hypothesis Hvar : forall n ss, Forall Psel ss -> P (XVar n ss).
   Fixpoint sexpr_ind2 (e : sexpr) : P e :=
+    let exprs := fix exprs (l : list sexpr) : Forall P l :=
+      match l with [] => Forall_nil _ | x :: r => Forall_cons x (sexpr_ind2 x) (exprs r) end in
+    let sels := fix sels (l : list (sel sexpr)) : Forall Psel l :=
+      match l with
+      | [] => Forall_nil _
+      | s :: r => Forall_cons s (match s as s0 return Psel s0 with SField _ => I | SIndex es => exprs es end) (sels r)
+      end in
     match e with
     | XAtom l => Hatom l
     | XBin o l r => Hbin o l r (sexpr_ind2 l) (sexpr_ind2 r)
@@ -39,9 +49,10 @@ Section SexprInd.
                        | p :: r => Forall_cons p (match p as p0 return Ppar p0 with
                                                   | PPos e => sexpr_ind2 e
                                                   | PNamed _ e => sexpr_ind2 e
-                                                  | POut _ _ _ => I
+                                                  | POut _ _ _ vs => sels vs
                                                   end) (go r)
                        end) ps)
+    | XVar n ss => Hvar n ss (sels ss)
     end.
 End SexprInd.
 
@@ -49,33 +60,23 @@ End SexprInd.
 Definition leaf_ok (l : sleaf) : Prop :=
   match l with
   | LfInt false v => (v < two128)%N      (* the range of the syntax tree's integers *)
-  | LfInt true _ => False          (* written '- 5': the recorded gap *)
-  | LfVar _ => False               (* no accepted text has this node *)
+  | LfInt true _ => False                (* written '- 5': the recorded gap *)
   | _ => True
   end.
 
-Fixpoint rexpr (e : sexpr) : Prop :=
-  match e with
-  | XAtom l => leaf_ok l
-  | XBin _ l r => rexpr l /\ rexpr r
-  | XUn _ x => rexpr x
-  | XCall _ ps =>
-      (fix go (l : list (param sexpr)) : Prop :=
-         match l with
-         | [] => True
-         | p :: r => match p with PPos e | PNamed _ e => rexpr e | POut _ _ _ => True end /\ go r
-         end) ps
-  end.
-Definition rpar (p : param sexpr) : Prop := match p with PPos e | PNamed _ e => rexpr e | POut _ _ _ => True end.
-
-Lemma rexpr_call f ps : rexpr (XCall f ps) <-> Forall rpar ps.
-Proof.
-  cbn [rexpr]. induction ps as [|p r IH]; split; intro H.
-  - constructor.
-  - exact I.
-  - destruct H as [H1 H2]. constructor; [exact H1 | apply IH; exact H2].
-  - inversion H; subst. split; [assumption | apply IH; assumption].
-Qed.
+Inductive rexpr : sexpr -> Prop :=
+  | RAtom l : leaf_ok l -> rexpr (XAtom l)
+  | RBin o l r : rexpr l -> rexpr r -> rexpr (XBin o l r)
+  | RUn o x : rexpr x -> rexpr (XUn o x)
+  | RCall f ps : Forall rpar ps -> rexpr (XCall f ps)
+  | RVar n ss : ss <> [] -> Forall rsel ss -> rexpr (XVar n ss)     (* a variable without selectors is read back as a plain name *)
+with rpar : param sexpr -> Prop :=
+  | RPPos e : rexpr e -> rpar (PPos e)
+  | RPNamed n e : rexpr e -> rpar (PNamed n e)
+  | RPOut neg n v vs : Forall rsel vs -> rpar (POut neg n v vs)
+with rsel : sel sexpr -> Prop :=
+  | RSField f : rsel (SField f)
+  | RSIndex es : es <> [] -> Forall rexpr es -> rsel (SIndex es).
 
 (* ---- token facts ---- *)
 Lemma class_kwt k c : kind_class k = c -> c <> CConst CkInt -> forall tx, tok_class (tkk k tx) = c.
@@ -126,6 +127,57 @@ Lemma sp_of_call f p r : sp_of (XCall f (p :: r)) =
   let '(rest, w3) := pars_of (par_of p) r in SCallN token (id_tok f) ws1 lpt ws1 (par_of p) rest w3 rpt.
 Proof. reflexivity. Qed.
 
+Lemma sp_of_var n ss : sp_of (XVar n ss) = SVar token (id_tok n) (sels_of ss).
+Proof. reflexivity. Qed.
+
+Notation rwfss := (StExprProofs.wfss token tok_class op_level).
+Notation rwfsi := (StExprProofs.wfsi token tok_class op_level).
+Notation rerasess := (StExprProofs.erasess token t_text tok_num).
+Notation rerasesi := (StExprProofs.erasesi token t_text tok_num).
+
+Definition expr_good (e : sexpr) : Prop := (forall q, rwf q (sp_of e)) /\ rerase (sp_of e) = e.
+Definition sel_good (s : sel sexpr) : Prop :=
+  match s with SField _ => True | SIndex es => es <> [] /\ Forall expr_good es end.
+
+Lemma idx_of_spec : forall l prev, Forall expr_good l ->
+  let '(m, w) := idx_of prev l in
+  rwfsi w m /\ rtriv w /\ rerasesi m = l /\ (rends prev = true -> idx_lead token m w = []).
+Proof.
+  induction l as [|y l IH]; intros prev Hl; cbn [idx_of].
+  - split; [exact I|]. split; [apply gap_triv|]. split; [reflexivity|]. cbn [idx_lead]. apply gap_nil.
+  - inversion Hl as [|y' l' (Wy & Ey) Hl']; subst.
+    specialize (IH (sp_of y) Hl'). destruct (idx_of (sp_of y) l) as [m w]. destruct IH as (W & T & E & Ld).
+    split; [|split; [exact T|split]].
+    + cbn [StExprProofs.wfsi]. split; [apply gap_triv|]. split; [reflexivity|]. split; [apply ws1_triv|].
+      split; [exact (Wy 0)|]. split; [exact W | exact Ld].
+    + change (rerase (sp_of y) :: rerasesi m = y :: l). rewrite Ey, E. reflexivity.
+    + cbn [idx_lead]. apply gap_nil.
+Qed.
+
+Lemma sels_of_spec : forall l, Forall sel_good l -> rwfss (sels_of l) /\ rerasess (sels_of l) = l.
+Proof.
+  induction l as [|s l IH]; intro Hl; [split; [exact I | reflexivity]|].
+  inversion Hl as [|s' l' Hs Hl']; subst. destruct (IH Hl') as (W & E).
+  destruct s as [f|es]; cbn [sels_of].
+  - split.
+    + cbn [StExprProofs.wfss]. split; [apply nil_triv|]. split; [reflexivity|]. split; [apply nil_triv|]. split; [reflexivity | exact W].
+    + change (SField (t_text (id_tok f)) :: rerasess (sels_of l) = SField f :: l). rewrite E. reflexivity.
+  - destruct Hs as (Hne & Hes). destruct es as [|x es']; [contradiction Hne; reflexivity|].
+    inversion Hes as [|x' es'' (Wx & Ex) Hes']; subst.
+    pose proof (idx_of_spec es' (sp_of x) Hes') as S. destruct (idx_of (sp_of x) es') as [m w3]. destruct S as (Wm & T & Em & Ld).
+    split.
+    + cbn [StExprProofs.wfss]. split; [apply ws1_triv|]. split; [reflexivity|]. split; [apply ws1_triv|]. split; [exact (Wx 0)|].
+      split; [exact Wm|]. split; [exact T|]. split; [reflexivity|]. split; [exact Ld | exact W].
+    + change (SIndex (rerase (sp_of x) :: rerasesi m) :: rerasess (sels_of l) = SIndex (x :: es') :: l). rewrite Ex, Em, E. reflexivity.
+Qed.
+
+Lemma has_sel_of l : l <> [] -> Forall sel_good l -> has_sel token (sels_of l) = true.
+Proof.
+  destruct l as [|s l]; [intros H; contradiction H; reflexivity|]. intros _ Hl. inversion Hl as [|s' l' Hs _]; subst.
+  destruct s as [f|es]; cbn [sels_of]; [reflexivity|]. destruct Hs as (Hne & _). destruct es as [|x es']; [contradiction Hne; reflexivity|].
+  destruct (idx_of (sp_of x) es'); reflexivity.
+Qed.
+
 Definition par_good (p : param sexpr) : Prop := rwfpar (par_of p) /\ rerasep (par_of p) = p.
 
 Lemma pars_of_spec : forall l prev, Forall par_good l ->
@@ -143,70 +195,94 @@ Proof.
     + cbn [lead]. apply pgap_nil.
 Qed.
 
-(* ---- expressions: the rendering is a well-formed spelling of the tree ---- *)
-Definition primlike_sp (s : rsx) : Prop := wfp token tok_class op_level s.
-
-Lemma sp_of_spec : forall e, rexpr e -> forall q, rwf q (sp_of e) /\ rerase (sp_of e) = e.
+(* selectors are good when their subscripts are (used for parameters and assignment targets) *)
+Lemma sels_good_of (P : sexpr -> Prop) ss : (forall e, P e -> rexpr e -> expr_good e) ->
+  Forall (Psel P) ss -> Forall rsel ss -> Forall sel_good ss.
 Proof.
-  induction e as [l|o l r IHl IHr|o x IHx|f ps IHps] using sexpr_ind2; intros He q.
+  intros HP. induction ss as [|s ss IH]; intros HF HR; [constructor|].
+  inversion HF as [|s1 l1 Hs HF']; subst. inversion HR as [|s2 l2 Rs HR']; subst.
+  constructor; [|apply IH; assumption].
+  destruct s as [f|es]; [exact I|]. inversion Rs as [|es0 Hne Res]; subst. split; [exact Hne|].
+  cbn [Psel] in Hs. clear -HP Hs Res. induction es as [|x es IHes]; [constructor|].
+  inversion Hs; subst. inversion Res; subst. constructor; [apply HP; assumption | apply IHes; assumption].
+Qed.
+
+(* ---- expressions: the rendering is a well-formed spelling of the tree ---- *)
+Lemma par_good_from (P : sexpr -> Prop) p : (forall e, P e -> rexpr e -> expr_good e) -> Ppar P p -> rpar p -> par_good p.
+Proof.
+  intros HP Hp Rp. unfold par_good. destruct p as [e|n e|neg n v vs]; cbn [Ppar par_of StExprProofs.wfpar] in *; inversion Rp; subst.
+  - destruct (HP e Hp) as (W & E); [assumption|]. split; [exact (W 0)|]. change (PPos (rerase (sp_of e)) = PPos e). rewrite E; reflexivity.
+  - destruct (HP e Hp) as (W & E); [assumption|].
+    split; [|change (PNamed (t_text (id_tok n)) (rerase (sp_of e)) = PNamed n e); rewrite E; reflexivity].
+    split; [reflexivity|]. split; [apply ws1_triv|]. split; [reflexivity|]. split; [apply ws1_triv | exact (W 0)].
+  - destruct (sels_of_spec vs) as (Wv & Ev); [eapply sels_good_of; eassumption|].
+    split; [|change (POut (match (if neg then Some (not_t, ws1) else None) with Some _ => true | None => false end) (t_text (id_tok n)) (t_text (id_tok v)) (rerasess (sels_of vs)) = POut neg n v vs); rewrite Ev; destruct neg; reflexivity].
+    split; [destruct neg; [split; [reflexivity | apply ws1_triv] | exact I]|].
+    split; [reflexivity|]. split; [apply ws1_triv|]. split; [reflexivity|]. split; [apply ws1_triv|]. split; [reflexivity | exact Wv].
+Qed.
+
+Lemma sp_of_spec0 : forall e, rexpr e -> expr_good e.
+Proof.
+  induction e as [l|o l r IHl IHr|o x IHx|f ps IHps|n ss IHss] using sexpr_ind2; intros He; inversion He; subst.
   - (* leaves *)
-    destruct l as [[|] v|b|c|n|n]; cbn [rexpr leaf_ok] in He; try contradiction; cbn [sp_of leaf_sp].
-    + destruct (int_tok_ok v He) as (Hc & Hn). split; [exact Hc|]. cbn. unfold leaf_of. rewrite Hn. reflexivity.
-    + split; [|destruct b; reflexivity]. cbn. destruct b; repeat split; reflexivity.
-    + split; [apply str_tok_class|]. cbn [StExprProofs.erase]. rewrite str_tok_leaf. reflexivity.
-    + split; [|reflexivity]. split; [reflexivity | apply ws1_triv].
+    unfold expr_good. destruct l as [[|] v|b|c|n]; cbn [leaf_ok] in *; try contradiction; cbn [sp_of leaf_sp].
+    + match goal with H : (_ < two128)%N |- _ => destruct (int_tok_ok v H) as (Hc & Hn) end.
+      split; [intro q; exact Hc|]. cbn. unfold leaf_of. rewrite Hn. reflexivity.
+    + split; [|destruct b; reflexivity]. intro q. cbn. destruct b; repeat split; reflexivity.
+    + split; [intro q; apply str_tok_class|]. cbn [StExprProofs.erase]. rewrite str_tok_leaf. reflexivity.
+    + split; [|reflexivity]. intro q. split; [reflexivity | apply ws1_triv].
   - (* ( l op r ) *)
-    cbn [rexpr] in He. destruct He as (Hl & Hr).
-    destruct (IHl Hl (op_level o)) as (Wl & El). destruct (IHr Hr (S (op_level o))) as (Wr & Er).
-    cbn [sp_of]. split.
-    + cbn [StExprProofs.wf]. repeat split; try reflexivity; try apply ws1_triv; try apply gap_triv.
+    match goal with Hl : rexpr l, Hr : rexpr r |- _ => destruct (IHl Hl) as (Wl & El); destruct (IHr Hr) as (Wr & Er) end.
+    unfold expr_good. cbn [sp_of]. split.
+    + intro q. cbn [StExprProofs.wf]. repeat split; try reflexivity; try apply ws1_triv; try apply gap_triv.
       * apply op_tok_bop.
       * lia.
-      * exact Wl.
-      * exact Wr.
+      * exact (Wl _).
+      * exact (Wr _).
       * apply gap_nil.
       * cbn [StExprProofs.ends_name]. apply gap_nil.
-    + cbn [StExprProofs.erase]. rewrite El, Er. reflexivity.
+    + change (XBin o (rerase (sp_of l)) (rerase (sp_of r)) = XBin o l r). rewrite El, Er. reflexivity.
   - (* unary operator *)
-    cbn [rexpr] in He. destruct (IHx He 0) as (Wx & Ex). rewrite sp_of_un.
-    destruct x as [l|o' l r|o' x'|f ps].
+    match goal with Hx : rexpr x |- _ => destruct (IHx Hx) as (Wx & Ex); rename Hx into Rx end. unfold expr_good. rewrite sp_of_un.
+    destruct x as [l|o' l r|o' x'|f ps|n ss].
     + (* a leaf: negative constants are excluded *)
-      split; [|cbn [StExprProofs.erase]; rewrite Ex; reflexivity].
+      split; [|cbn [StExprProofs.erase]; rewrite Ex; reflexivity]. intro q.
       cbn [StExprProofs.wf]. split; [apply un_tok_uop|]. split; [apply ws1_triv|].
-      destruct l as [[|] v|b|c|n|n]; cbn [rexpr leaf_ok] in He; try contradiction; exact Wx.
-    + split; [|cbn [StExprProofs.erase]; rewrite Ex; reflexivity].
-      cbn [StExprProofs.wf]. split; [apply un_tok_uop|]. split; [apply ws1_triv|]. exact Wx.
+      inversion Rx; subst. destruct l as [[|] v|b|c|n]; cbn [leaf_ok] in *; try contradiction; exact (Wx 0).
+    + split; [|cbn [StExprProofs.erase]; rewrite Ex; reflexivity]. intro q.
+      cbn [StExprProofs.wf]. split; [apply un_tok_uop|]. split; [apply ws1_triv|]. exact (Wx 0).
     + (* nested unary: in parentheses *)
       set (sx := sp_of (XUn o' x')) in *.
-      split; [|cbn [StExprProofs.erase]; rewrite Ex; reflexivity].
+      split; [|cbn [StExprProofs.erase]; rewrite Ex; reflexivity]. intro q.
       cbn [StExprProofs.wf]. split; [apply un_tok_uop|]. split; [apply ws1_triv|].
-      split; [reflexivity|]. split; [reflexivity|]. split; [apply ws1_triv|]. split; [apply gap_triv|]. split; [exact Wx | apply gap_nil].
-    + split; [|cbn [StExprProofs.erase]; rewrite Ex; reflexivity].
+      split; [reflexivity|]. split; [reflexivity|]. split; [apply ws1_triv|]. split; [apply gap_triv|]. split; [exact (Wx 0) | apply gap_nil].
+    + split; [|cbn [StExprProofs.erase]; rewrite Ex; reflexivity]. intro q.
       cbn [StExprProofs.wf]. split; [apply un_tok_uop|]. split; [apply ws1_triv|].
-      assert (Hp : wfp token tok_class op_level (sp_of (XCall f ps))).
-      { cbn [sp_of] in *. destruct ps as [|p0 r0]; [exact Wx|]. destruct (_ : rspars * list token); exact Wx. }
-      cbn [sp_of] in *. destruct ps as [|p0 r0]; [exact Wx|]. destruct (_ : rspars * list token); exact Wx.
+      pose proof (Wx 0) as W0. cbn [sp_of] in *. destruct ps as [|p0 r0]; [exact W0|]. destruct (_ : rspars * list token); exact W0.
+    + split; [|cbn [StExprProofs.erase]; rewrite Ex; reflexivity]. intro q.
+      cbn [StExprProofs.wf]. split; [apply un_tok_uop|]. split; [apply ws1_triv|]. pose proof (Wx 0) as W0. rewrite sp_of_var in *. exact W0.
   - (* calls *)
-    apply rexpr_call in He.
     assert (Hg : Forall par_good ps).
-    { clear q. induction ps as [|p r IHr]; [constructor|]. inversion IHps as [|p' r' Hp Hr']; subst. inversion He as [|p'' r'' Rp Rr]; subst.
-      constructor; [|apply IHr; assumption].
-      unfold par_good. destruct p as [e|n e|neg n v]; cbn [par_of StExprProofs.wfpar StExprProofs.erasep Ppar rpar] in *.
-      - destruct (Hp Rp 0) as (W & E). split; [exact W|]. change (PPos (rerase (sp_of e)) = PPos e). rewrite E; reflexivity.
-      - destruct (Hp Rp 0) as (W & E). split; [|change (PNamed (t_text (id_tok n)) (rerase (sp_of e)) = PNamed n e); rewrite E; reflexivity].
-        split; [reflexivity|]. split; [apply ws1_triv|]. split; [reflexivity|]. split; [apply ws1_triv | exact W].
-      - split; [|destruct neg; reflexivity].
-        split; [destruct neg; [split; [reflexivity | apply ws1_triv] | exact I]|].
-        split; [reflexivity|]. split; [apply ws1_triv|]. split; [reflexivity|]. split; [apply ws1_triv | reflexivity]. }
+    { match goal with H : Forall rpar ps |- _ => rename H into Rps end.
+      clear He. induction ps as [|p r IHr]; [constructor|]. inversion IHps; subst. inversion Rps; subst.
+      constructor; [eapply par_good_from; [|eassumption|assumption]; intros e0 Hq1 Hq2; exact (Hq1 Hq2) | apply IHr; assumption]. }
     destruct ps as [|p r].
-    + cbn [sp_of]. split; [|reflexivity]. cbn [StExprProofs.wf]. repeat split; try reflexivity; apply ws1_triv.
-    + rewrite sp_of_call. inversion Hg as [|p' r' (Wp & Ep) Hr]; subst.
+    + unfold expr_good. cbn [sp_of]. split; [|reflexivity]. intro q. cbn [StExprProofs.wf]. repeat split; try reflexivity; apply ws1_triv.
+    + unfold expr_good. rewrite sp_of_call. inversion Hg as [|p' r' (Wp & Ep) Hr]; subst.
       pose proof (pars_of_spec r (par_of p) Hr) as S. destruct (pars_of (par_of p) r) as [rest w3]. destruct S as (W & T & E & Ld).
       split.
-      * cbn [StExprProofs.wf]. split; [reflexivity|]. split; [apply ws1_triv|]. split; [reflexivity|]. split; [apply ws1_triv|].
+      * intro q. cbn [StExprProofs.wf]. split; [reflexivity|]. split; [apply ws1_triv|]. split; [reflexivity|]. split; [apply ws1_triv|].
         split; [exact Wp|]. split; [exact W|]. split; [exact T|]. split; [reflexivity | exact Ld].
       * change (XCall (t_text (id_tok f)) (rerasep (par_of p) :: reraseps rest) = XCall f (p :: r)). rewrite Ep, E. reflexivity.
+  - (* variables with selectors *)
+    assert (Hg : Forall sel_good ss) by (eapply sels_good_of; [|eassumption|assumption]; intros e0 Hq1 Hq2; exact (Hq1 Hq2)).
+    destruct (sels_of_spec ss Hg) as (W & E). unfold expr_good. rewrite sp_of_var. split.
+    + intro q. cbn [StExprProofs.wf]. split; [reflexivity|]. split; [exact W|]. apply has_sel_of; assumption.
+    + change (XVar (t_text (id_tok n)) (rerasess (sels_of ss)) = XVar n ss). rewrite E. reflexivity.
 Qed.
+
+Lemma sp_of_spec : forall e, rexpr e -> forall q, rwf q (sp_of e) /\ rerase (sp_of e) = e.
+Proof. intros e He q. destruct (sp_of_spec0 e He) as (W & E). split; [exact (W q) | exact E]. Qed.
 
 (* ---- statements ---- *)
 Notation rwf_s := (wf_s token tok_class op_level).
@@ -217,7 +293,7 @@ Notation rabs := (absorbs token).
 
 Section StmtInd.
   Variable P : stmt -> Prop.
-  Hypothesis Hassign : forall v e, P (TAssign v e).
+  Hypothesis Hassign : forall v vs e, P (TAssign v vs e).
   Hypothesis Hcall : forall f ps, P (TCall f ps).
   Hypothesis Hif : forall c body eis els,
     Forall P body -> Forall (fun cb : sexpr * list stmt => Forall P (snd cb)) eis -> Forall P els -> P (TIf c body eis els).
@@ -230,7 +306,7 @@ Section StmtInd.
     let lst := fix lst (l : list stmt) : Forall P l :=
       match l with [] => Forall_nil _ | x :: r => Forall_cons x (stmt_ind2 x) (lst r) end in
     match s with
-    | TAssign v e => Hassign v e
+    | TAssign v vs e => Hassign v vs e
     | TCall f ps => Hcall f ps
     | TIf c body eis els =>
         Hif c body eis els (lst body)
@@ -251,7 +327,7 @@ End StmtInd.
 Fixpoint rstmt (s : stmt) : Prop :=
   let all := fix all (l : list stmt) : Prop := match l with [] => True | x :: r => rstmt x /\ all r end in
   match s with
-  | TAssign _ e => rexpr e
+  | TAssign _ vs e => Forall rsel vs /\ rexpr e
   | TCall _ ps => Forall rpar ps
   | TIf c body eis els =>
       rexpr c /\ all body /\
@@ -328,16 +404,25 @@ Proof.
     split; [exact W|]. split; [exact E|]. rewrite A. discriminate.
 Qed.
 
+Lemma sel_good_of s : rsel s -> sel_good s.
+Proof.
+  destruct s as [f|es]; intro H; [exact I|]. inversion H; subst. split; [assumption|].
+  eapply Forall_impl; [apply sp_of_spec0 | assumption].
+Qed.
+Lemma sels_good_all vs : Forall rsel vs -> Forall sel_good vs.
+Proof. intro H. eapply Forall_impl; [apply sel_good_of | exact H]. Qed.
+
 Lemma par_good_of p : rpar p -> par_good p.
 Proof.
-  unfold par_good. destruct p as [e|n e|neg n v]; cbn [rpar par_of StExprProofs.wfpar]; intro H.
-  - destruct (sp_of_spec e H 0) as (W & E). split; [exact W|]. change (PPos (rerase (sp_of e)) = PPos e). rewrite E; reflexivity.
-  - destruct (sp_of_spec e H 0) as (W & E).
+  unfold par_good. intro H. inversion H; subst; cbn [par_of StExprProofs.wfpar].
+  - destruct (sp_of_spec0 e) as (W & E); [assumption|]. split; [exact (W 0)|]. change (PPos (rerase (sp_of e)) = PPos e). rewrite E; reflexivity.
+  - destruct (sp_of_spec0 e) as (W & E); [assumption|].
     split; [|change (PNamed (t_text (id_tok n)) (rerase (sp_of e)) = PNamed n e); rewrite E; reflexivity].
-    split; [reflexivity|]. split; [apply ws1_triv|]. split; [reflexivity|]. split; [apply ws1_triv | exact W].
-  - split; [|destruct neg; reflexivity].
+    split; [reflexivity|]. split; [apply ws1_triv|]. split; [reflexivity|]. split; [apply ws1_triv | exact (W 0)].
+  - destruct (sels_of_spec vs (sels_good_all vs ltac:(assumption))) as (Wv & Ev).
+    split; [|change (POut (match (if neg then Some (not_t, ws1) else None) with Some _ => true | None => false end) (t_text (id_tok n)) (t_text (id_tok v)) (rerasess (sels_of vs)) = POut neg n v vs); rewrite Ev; destruct neg; reflexivity].
     split; [destruct neg; [split; [reflexivity | apply ws1_triv] | exact I]|].
-    split; [reflexivity|]. split; [apply ws1_triv|]. split; [reflexivity|]. split; [apply ws1_triv | reflexivity].
+    split; [reflexivity|]. split; [apply ws1_triv|]. split; [reflexivity|]. split; [apply ws1_triv|]. split; [reflexivity | exact Wv].
 Qed.
 
 Lemma goods (P : stmt -> Prop) l : (forall s, P s -> rstmt s -> stmt_good s) -> Forall P l -> rall l -> Forall stmt_good l.
@@ -392,11 +477,12 @@ Proof. reflexivity. Qed.
 
 Theorem ss_of_spec : forall s, rstmt s -> stmt_good s.
 Proof.
-  induction s as [v e|f ps|c body eis els IHb IHe IHl|v e1 e2 st body IHb|c body IHb|body c IHb| |] using stmt_ind2; intro R.
+  induction s as [v vs e|f ps|c body eis els IHb IHe IHl|v e1 e2 st body IHb|c body IHb|body c IHb| |] using stmt_ind2; intro R.
   - (* assignment *)
-    cbn [rstmt] in R. destruct (sp_of_spec e R 0) as (W & E). split.
-    + cbn [ss_of wf_s]. split; [reflexivity|]. split; [apply ws1_triv|]. split; [reflexivity|]. split; [apply ws1_triv | exact W].
-    + change (TAssign (t_text (id_tok v)) (rerase (sp_of e)) = TAssign v e). rewrite E. reflexivity.
+    cbn [rstmt] in R. destruct R as (Rvs & Re). destruct (sp_of_spec e Re 0) as (W & E).
+    destruct (sels_of_spec vs (sels_good_all vs Rvs)) as (Wv & Ev). split.
+    + cbn [ss_of wf_s]. split; [reflexivity|]. split; [exact Wv|]. split; [apply ws1_triv|]. split; [reflexivity|]. split; [apply ws1_triv | exact W].
+    + change (TAssign (t_text (id_tok v)) (rerasess (sels_of vs)) (rerase (sp_of e)) = TAssign v vs e). rewrite Ev, E. reflexivity.
   - (* function-block call *)
     cbn [rstmt] in R. destruct ps as [|p r].
     + split; [|reflexivity]. cbn [ss_of wf_s]. repeat split; try reflexivity; apply ws1_triv.
@@ -528,7 +614,7 @@ Corollary render_fixed_point : forall name l, l <> [] -> Forall rstmt l ->
 Proof. intros name l Hn Hl. rewrite (parse_render_fb name l Hn Hl). reflexivity. Qed.
 
 (* the guard is needed: a negative constant is written '- 5', which does not read back *)
-Definition neg_witness : list stmt := [TAssign [120%N] (XUn UNot (XAtom (LfInt true 5%N)))].
+Definition neg_witness : list stmt := [TAssign [120%N] [] (XUn UNot (XAtom (LfInt true 5%N)))].
 Theorem render_negative_constant_refuted :
   parse_fb_tokens (render_fb [102%N] neg_witness) <> OParsed neg_witness.
 Proof. vm_compute. discriminate. Qed.
@@ -536,10 +622,10 @@ Proof. vm_compute. discriminate. Qed.
 (* the premises hold for a concrete, non-trivial list (with an empty loop body and an empty ELSIF body) *)
 Definition ex_stmts : list stmt :=
   [TIf (XBin BLt (XAtom (LfName [97%N])) (XAtom (LfInt false 10%N)))
-       [TAssign [120%N] (XBin BAdd (XAtom (LfName [120%N])) (XCall [102%N] [PPos (XAtom (LfBool true)); PNamed [110%N] (XUn UNeg (XAtom (LfName [98%N])))]))]
+       [TAssign [120%N] [SField [121%N]; SIndex [XAtom (LfInt false 1%N); XVar [105%N] [SField [106%N]]]] (XBin BAdd (XAtom (LfName [120%N])) (XCall [102%N] [PPos (XAtom (LfBool true)); PNamed [110%N] (XUn UNeg (XAtom (LfName [98%N])))]))]
        [(XAtom (LfName [99%N]), [TExit]); (XAtom (LfName [100%N]), [])] [TReturn];
    TWhile (XAtom (LfBool false)) [];
-   TRepeat [TCall [103%N] [POut true [111%N] [118%N]]] (XAtom (LfName [97%N]))].
+   TRepeat [TCall [103%N] [POut true [111%N] [118%N] [SField [119%N]]]] (XAtom (LfName [97%N]))].
 Example ex_renderable : Forall rstmt ex_stmts /\ ex_stmts <> [].
 Proof.
   split; [|discriminate].
